@@ -239,7 +239,9 @@ def main():
   rep.coverage["rule"] = ("one evaluation = one bundle applied to the real engine followed by the "
                           "three clauses (whether the bundle succeeded or was rolled back); "
                           "non-trivial = the bundle changed the document or raised")
-  explore.explore(rep, "checks.C08", "C08Monitor")
+  from checks import C02
+  C02.tune_explore()
+  explore.explore(rep, "checks.C08", "C08Monitor", n_quick=128, budget_quick_s=45)
   return rep.finish()
 
 
